@@ -226,177 +226,16 @@ func runC03(c *Ctx) {
 	}
 
 	// ---- R03.2
-	{
-		type want struct {
-			name string
-			is   func(d *ssa.Defer) bool
-		}
-		wants := []want{
-			{"close of the exit signal", func(d *ssa.Defer) bool {
-				if b, ok := d.Call.Value.(*ssa.Builtin); ok && b.Name() == "close" {
-					return isLoadOf(d.Call.Args[0], r.FExiting)
-				}
-				return false
-			}},
-			{"in-flight failer", func(d *ssa.Defer) bool { return w.Failer != nil && deferCalls(d, p) == w.Failer }},
-			{"sink closer", func(d *ssa.Defer) bool { return w.SinkCloser != nil && deferCalls(d, p) == w.SinkCloser }},
-			{"context cancel", func(d *ssa.Defer) bool {
-				return !d.Call.IsInvoke() && d.Call.Value != nil && isNamed(d.Call.Value.Type(), "context", "CancelFunc")
-			}},
-		}
-		var rets []ssa.Instruction
-		allInstrs(loop, func(in ssa.Instruction) {
-			if isReturn(in) {
-				rets = append(rets, in)
-			}
-		})
-		for _, wt := range wants {
-			construct := fmt.Sprintf("%s: deferred %s", fname(loop), wt.name)
-			var d *ssa.Defer
-			for _, x := range w.Defers {
-				if wt.is(x) {
-					d = x
-				}
-			}
-			if d == nil {
-				c.bad("R03.2", construct, p.pos(loop.Pos()), "not deferred in the connection loop: an exit leaves calls/handlers/waiters hanging")
-				continue
-			}
-			okAll := true
-			for _, rt := range rets {
-				if !mustPrecede(loop, func(in ssa.Instruction) bool { return in == ssa.Instruction(d) }, rt) {
-					okAll = false
-					c.bad("R03.2", construct, c.ipos(rt), "a return of the loop is reachable without this cleanup having been registered")
-				}
-			}
-			if okAll {
-				c.ok("R03.2", construct, c.ipos(d), fmt.Sprintf("registered before all %d returns", len(rets)))
-			}
-		}
-	}
+	c.exitCleanup("R03.2")
 
 	// ---- R03.3
 	c.cleanupBeforeRedial("R03.3")
 
 	// ---- R03.4
-	if c.needWS("R03.4", "failer", w.Failer) {
-		f := w.Failer
-		construct := fmt.Sprintf("%s: fail every in-flight call", fname(f))
-		li := p.lockInfo()
-		var rng ssa.Instruction
-		for _, u := range usesOfKind(usesIn(p.uses(r.FInflight), f), "range") {
-			rng = u.At
-		}
-		var send *ssa.Send
-		allInstrs(f, func(in ssa.Instruction) {
-			if s, ok := in.(*ssa.Send); ok {
-				if _, ok := s.Chan.Type().Underlying().(*types.Chan); ok && s.Chan.Type().Underlying().(*types.Chan).Elem() == types.Type(r.TCresp) {
-					send = s
-				}
-			}
-		})
-		okAll := true
-		if rng == nil || send == nil {
-			okAll = false
-			c.bad("R03.4", construct, p.pos(f.Pos()), "the failer does not range over the in-flight table and send to each entry's mailbox")
-		} else {
-			// unconditional: the only conditions on the send are the range's own ok
-			for _, cf := range expandConds(impliedConds(send.Block())) {
-				if ex, ok := cf.Cond.(*ssa.Extract); ok {
-					if _, ok := ex.Tuple.(*ssa.Next); ok {
-						continue
-					}
-				}
-				if u, ok := cf.Cond.(*ssa.UnOp); ok && u.Op == token.NOT {
-					continue
-				}
-				okAll = false
-				c.bad("R03.4", construct, c.ipos(send), "some registered calls are skipped (the answer is sent only under an extra condition): those callers hang")
-			}
-			if !inLoop(send.Block()) {
-				okAll = false
-				c.bad("R03.4", construct, c.ipos(send), "the answer is not sent inside the loop over the table")
-			}
-			if code, ok := c.respLiteralErrCode(send.X); !ok || !haveTemp || code != temp {
-				okAll = false
-				c.bad("R03.4", construct, c.ipos(send), "the failure answer does not carry the temporary-connection error code (retry-tagged calls would not retry; untagged ones would not see the connection error)")
-			}
-			// reset in the same critical section
-			var reset *ssa.Store
-			for _, u := range usesOfKind(usesIn(p.uses(r.FInflight), f), "store") {
-				reset = u.At.(*ssa.Store)
-			}
-			if reset == nil {
-				okAll = false
-				c.bad("R03.4", construct, c.ipos(rng), "the table is not emptied after its entries were answered: the next loss or exit answers the same call again and blocks for ever on its one-slot mailbox (with the table lock held)")
-			} else {
-				held := intersect(li.mustAt(rng), li.mustAt(reset))
-				unlock := func(in ssa.Instruction) bool {
-					ci, ok := in.(*ssa.Call)
-					if !ok {
-						return false
-					}
-					id, op := p.lockOp(ci)
-					return op == -1 && held[id]
-				}
-				if len(held) == 0 || reachFrom(rng, func(in ssa.Instruction) bool { return in == ssa.Instruction(reset) }, unlock) == nil {
-					okAll = false
-					c.bad("R03.4", construct, c.ipos(reset), "answering the entries and emptying the table are not one critical section")
-				}
-				if _, ok := reset.Val.(*ssa.MakeMap); !ok {
-					okAll = false
-					c.bad("R03.4", construct, c.ipos(reset), "the table is not replaced by an empty map")
-				}
-				if ret := mustFollowFrom(rng, func(in ssa.Instruction) bool { return in == ssa.Instruction(reset) }); ret != nil {
-					okAll = false
-					c.bad("R03.4", construct, c.ipos(ret), "a path returns without emptying the table")
-				}
-			}
-		}
-		if okAll {
-			c.ok("R03.4", construct, c.ipos(send), "unconditional send in the range body, temporary code, table replaced in the same critical section")
-		}
-	}
+	c.failerRule("R03.4")
 
 	// ---- R03.5
-	{
-		n := 0
-		for _, fn := range p.Funcs {
-			if pkgOf(fn) != p.Root.Pkg {
-				continue
-			}
-			allInstrs(fn, func(in ssa.Instruction) {
-				isReqChan := func(v ssa.Value) bool {
-					ch, ok := v.Type().Underlying().(*types.Chan)
-					return ok && ch.Elem() == types.Type(r.TCreq)
-				}
-				switch x := in.(type) {
-				case *ssa.Send:
-					if isReqChan(x.Chan) {
-						n++
-						c.bad("R03.5", fmt.Sprintf("%s: enqueue of a request", fname(fn)), c.ipos(x), "bare send on the request queue: once the connection loop has exited nobody receives, and the caller blocks for ever")
-					}
-				case *ssa.Select:
-					for _, st := range x.States {
-						if st.Dir == types.SendOnly && isReqChan(st.Chan) {
-							n++
-							hasExit := false
-							for _, s2 := range x.States {
-								if s2.Dir == types.RecvOnly && (isLoadOf(s2.Chan, r.FCExiting) || isLoadOf(s2.Chan, r.FExiting)) {
-									hasExit = true
-								}
-							}
-							c.check(hasExit && x.Blocking, "R03.5", fmt.Sprintf("%s: enqueue of a request", fname(fn)), c.ipos(x),
-								"select alternative to the exit signal", "the enqueue does not watch the client's exit signal")
-						}
-					}
-				}
-			})
-		}
-		if n == 0 {
-			c.und("R03.5", "enqueue sites", "-", "no send on a request queue found")
-		}
-	}
+	c.enqueueRule("R03.5")
 
 	// ---- R03.6
 	if arm, ok := w.Arms["requests"]; ok && arm.Body != nil && c.needWS("R03.6", "sendReq", w.SendReq) {
@@ -634,6 +473,200 @@ func (c *Ctx) cleanupBeforeRedial(rule string) {
 					c.ok(RULE, construct, c.ipos(g), "called before every call of the redial function")
 				}
 			}
+		}
+	}
+
+}
+
+func (c *Ctx) exitCleanup(rule string) {
+	p, r := c.P, c.R
+	w := c.ws()
+	RULE := rule
+	_, _, _ = p, r, w
+	loop := r.FnLoop
+	if loop == nil {
+		c.und(rule, "connection loop", "-", "not resolved")
+		return
+	}
+	{
+		type want struct {
+			name string
+			is   func(d *ssa.Defer) bool
+		}
+		wants := []want{
+			{"close of the exit signal", func(d *ssa.Defer) bool {
+				if b, ok := d.Call.Value.(*ssa.Builtin); ok && b.Name() == "close" {
+					return isLoadOf(d.Call.Args[0], r.FExiting)
+				}
+				return false
+			}},
+			{"in-flight failer", func(d *ssa.Defer) bool { return w.Failer != nil && deferCalls(d, p) == w.Failer }},
+			{"sink closer", func(d *ssa.Defer) bool { return w.SinkCloser != nil && deferCalls(d, p) == w.SinkCloser }},
+			{"context cancel", func(d *ssa.Defer) bool {
+				return !d.Call.IsInvoke() && d.Call.Value != nil && isNamed(d.Call.Value.Type(), "context", "CancelFunc")
+			}},
+		}
+		var rets []ssa.Instruction
+		allInstrs(loop, func(in ssa.Instruction) {
+			if isReturn(in) {
+				rets = append(rets, in)
+			}
+		})
+		for _, wt := range wants {
+			construct := fmt.Sprintf("%s: deferred %s", fname(loop), wt.name)
+			var d *ssa.Defer
+			for _, x := range w.Defers {
+				if wt.is(x) {
+					d = x
+				}
+			}
+			if d == nil {
+				c.bad(RULE, construct, p.pos(loop.Pos()), "not deferred in the connection loop: an exit leaves calls/handlers/waiters hanging")
+				continue
+			}
+			okAll := true
+			for _, rt := range rets {
+				if !mustPrecede(loop, func(in ssa.Instruction) bool { return in == ssa.Instruction(d) }, rt) {
+					okAll = false
+					c.bad(RULE, construct, c.ipos(rt), "a return of the loop is reachable without this cleanup having been registered")
+				}
+			}
+			if okAll {
+				c.ok(RULE, construct, c.ipos(d), fmt.Sprintf("registered before all %d returns", len(rets)))
+			}
+		}
+	}
+
+}
+
+func (c *Ctx) failerRule(rule string) {
+	p, r := c.P, c.R
+	w := c.ws()
+	RULE := rule
+	_, _, _ = p, r, w
+	temp, haveTemp := c.tempCode()
+	if c.needWS(RULE, "failer", w.Failer) {
+		f := w.Failer
+		construct := fmt.Sprintf("%s: fail every in-flight call", fname(f))
+		li := p.lockInfo()
+		var rng ssa.Instruction
+		for _, u := range usesOfKind(usesIn(p.uses(r.FInflight), f), "range") {
+			rng = u.At
+		}
+		var send *ssa.Send
+		allInstrs(f, func(in ssa.Instruction) {
+			if s, ok := in.(*ssa.Send); ok {
+				if _, ok := s.Chan.Type().Underlying().(*types.Chan); ok && s.Chan.Type().Underlying().(*types.Chan).Elem() == types.Type(r.TCresp) {
+					send = s
+				}
+			}
+		})
+		okAll := true
+		if rng == nil || send == nil {
+			okAll = false
+			c.bad(RULE, construct, p.pos(f.Pos()), "the failer does not range over the in-flight table and send to each entry's mailbox")
+		} else {
+			// unconditional: the only conditions on the send are the range's own ok
+			for _, cf := range expandConds(impliedConds(send.Block())) {
+				if ex, ok := cf.Cond.(*ssa.Extract); ok {
+					if _, ok := ex.Tuple.(*ssa.Next); ok {
+						continue
+					}
+				}
+				if u, ok := cf.Cond.(*ssa.UnOp); ok && u.Op == token.NOT {
+					continue
+				}
+				okAll = false
+				c.bad(RULE, construct, c.ipos(send), "some registered calls are skipped (the answer is sent only under an extra condition): those callers hang")
+			}
+			if !inLoop(send.Block()) {
+				okAll = false
+				c.bad(RULE, construct, c.ipos(send), "the answer is not sent inside the loop over the table")
+			}
+			if code, ok := c.respLiteralErrCode(send.X); !ok || !haveTemp || code != temp {
+				okAll = false
+				c.bad(RULE, construct, c.ipos(send), "the failure answer does not carry the temporary-connection error code (retry-tagged calls would not retry; untagged ones would not see the connection error)")
+			}
+			// reset in the same critical section
+			var reset *ssa.Store
+			for _, u := range usesOfKind(usesIn(p.uses(r.FInflight), f), "store") {
+				reset = u.At.(*ssa.Store)
+			}
+			if reset == nil {
+				okAll = false
+				c.bad(RULE, construct, c.ipos(rng), "the table is not emptied after its entries were answered: the next loss or exit answers the same call again and blocks for ever on its one-slot mailbox (with the table lock held)")
+			} else {
+				held := intersect(li.mustAt(rng), li.mustAt(reset))
+				unlock := func(in ssa.Instruction) bool {
+					ci, ok := in.(*ssa.Call)
+					if !ok {
+						return false
+					}
+					id, op := p.lockOp(ci)
+					return op == -1 && held[id]
+				}
+				if len(held) == 0 || reachFrom(rng, func(in ssa.Instruction) bool { return in == ssa.Instruction(reset) }, unlock) == nil {
+					okAll = false
+					c.bad(RULE, construct, c.ipos(reset), "answering the entries and emptying the table are not one critical section")
+				}
+				if _, ok := reset.Val.(*ssa.MakeMap); !ok {
+					okAll = false
+					c.bad(RULE, construct, c.ipos(reset), "the table is not replaced by an empty map")
+				}
+				if ret := mustFollowFrom(rng, func(in ssa.Instruction) bool { return in == ssa.Instruction(reset) }); ret != nil {
+					okAll = false
+					c.bad(RULE, construct, c.ipos(ret), "a path returns without emptying the table")
+				}
+			}
+		}
+		if okAll {
+			c.ok(RULE, construct, c.ipos(send), "unconditional send in the range body, temporary code, table replaced in the same critical section")
+		}
+	}
+
+}
+
+func (c *Ctx) enqueueRule(rule string) {
+	p, r := c.P, c.R
+	w := c.ws()
+	RULE := rule
+	_, _, _ = p, r, w
+	{
+		n := 0
+		for _, fn := range p.Funcs {
+			if pkgOf(fn) != p.Root.Pkg {
+				continue
+			}
+			allInstrs(fn, func(in ssa.Instruction) {
+				isReqChan := func(v ssa.Value) bool {
+					ch, ok := v.Type().Underlying().(*types.Chan)
+					return ok && ch.Elem() == types.Type(r.TCreq)
+				}
+				switch x := in.(type) {
+				case *ssa.Send:
+					if isReqChan(x.Chan) {
+						n++
+						c.bad(RULE, fmt.Sprintf("%s: enqueue of a request", fname(fn)), c.ipos(x), "bare send on the request queue: once the connection loop has exited nobody receives, and the caller blocks for ever")
+					}
+				case *ssa.Select:
+					for _, st := range x.States {
+						if st.Dir == types.SendOnly && isReqChan(st.Chan) {
+							n++
+							hasExit := false
+							for _, s2 := range x.States {
+								if s2.Dir == types.RecvOnly && (isLoadOf(s2.Chan, r.FCExiting) || isLoadOf(s2.Chan, r.FExiting)) {
+									hasExit = true
+								}
+							}
+							c.check(hasExit && x.Blocking, RULE, fmt.Sprintf("%s: enqueue of a request", fname(fn)), c.ipos(x),
+								"select alternative to the exit signal", "the enqueue does not watch the client's exit signal")
+						}
+					}
+				}
+			})
+		}
+		if n == 0 {
+			c.und(RULE, "enqueue sites", "-", "no send on a request queue found")
 		}
 	}
 
